@@ -3,6 +3,7 @@
 import json, subprocess
 log = subprocess.check_output("git -C /repo log --reverse --format='%h %s' 10c4525..HEAD", shell=True, text=True).splitlines()
 propmap = {
+ 'removes the finished-marker of a left-over merge directory': 'C07 C03',
  'requested shard count below one': 'C14 C09',
  'chunk decoding never reads': 'C02 C11 C12', 'adopt merge output idempotently': 'C06 C07', 'merge rewrites live batch': 'C06 C04',
  'abandon the merge': 'C06', 'close every rewritten': 'C06 C11', 'do not rescan the last hinted': 'C17', 'read the merge-finished': 'C06',
